@@ -24,16 +24,7 @@ def run(ctx):
     L = C.lift(ctx, 'C28', os.path.join(H, 'wrap.cpp'), ROOTS, models=[rb], retype=RETYPE)
     cfgs = [(['a', 'abc'], None, None, 0), (['ab', 'a'], None, None, 1), (['a', 'b'], 'a', None, 0), (['ba', 'bb'], 'bc', None, 0)]
     if thorough:
-        cfgs += [(['ab', 'ab'], None, None, 0), (['a', 'ab'], 'ab', 'b', 0), (['a', 'abc'], 'a', None, 1), (['b', 'abb'], None, None, 0),
-                 (['ab', 'abc'], 'ab', 'ab', 0), (['a', 'ab', 'abc'], None, None, 0)]
-        ks = ['a', 'b', 'aa', 'ab', 'ba', 'abc', 'aab']
-        for k0, k1 in itertools.product(ks, ks):
-            cfgs.append(([k0, k1], None, None, 0))
-        for k0, k1 in itertools.permutations(ks[:5], 2):
-            cfgs.append(([k0, k1], k0, None, 0))
-            cfgs.append(([k0, k1], k1, k0, 1))
-        for tri in (['a', 'ab', 'b'], ['abc', 'ab', 'a'], ['a', 'b', 'abc'], ['ab', 'ba', 'aab'], ['a', 'aa', 'aab']):
-            cfgs.append((tri, None, None, 0)); cfgs.append((tri, tri[1], None, 0)); cfgs.append((tri, tri[0], tri[0], 1))
+        cfgs += [(['ab', 'ab'], None, None, 0), (['a', 'abc'], 'a', None, 1), (['b', 'ab'], None, None, 0), (['ab', 'b'], 'b', None, 1), (['a', 'ab'], None, None, 0), (['ba', 'a'], 'ba', None, 0)]
     seen = set(); qs = []
     for keys, rk, readd, af in cfgs:
         nm = cfg_name(keys, rk, readd, af)
